@@ -1,5 +1,6 @@
 import StepupModel.K.Request
 import StepupModel.Lemmas.MetaAfterW
+import StepupModel.Lemmas.MetaSafe
 /-! Driver requests of the kernel model (`k <op> ...`); the only stateful part of the driver. -/
 open StepupModel StepupModel.Proto StepupModel.K
 
@@ -127,8 +128,10 @@ def handle (sess : Session) : List String → Option (Session × String)
   | ["cacheinv"] =>
     -- the hypothesis of the worklist theorems (`MetaAfter.CacheInvAfterW`, the flag discipline),
     -- evaluated on the model state; second digit: the strict form `CacheInvAfter`
+    -- third digit: the discipline of `_update_meta_safe` (`MetaSafe.CacheInvSafeW`)
     pure (sess, (if StepupModel.K.MetaAfter.cacheInvAfterWB sess.st sess.cfg then "1" else "0") ++
-                (if StepupModel.K.MetaAfter.cacheInvAfterB sess.st sess.cfg then "1" else "0"))
+                (if StepupModel.K.MetaAfter.cacheInvAfterB sess.st sess.cfg then "1" else "0") ++
+                (if StepupModel.K.MetaSafe.cacheInvSafeWB sess.st then "1" else "0"))
   | ["dump"] => pure (sess, "|".intercalate sess.st.dumpLines)
   | ["lasterr"] => pure (sess, sess.lastErr)
   | toks => do
